@@ -7,6 +7,7 @@ from .facts import callee_name, callee_resolved
 from .origin import Origins, show, walk
 from .util import Vars, comparison_edges, reaches_without
 
+TECHNIQUE = 'static analysis, proof level: whole-program call graph below optimize(); dominance of every effectful pop by the index guard; effect-sink reachability; termination argument per loop (iterator, counter, structural descent, budget) and structural recursion'
 LEVEL = "proof"
 EXPLANATION = (
     "All-paths static analysis of the type-checked MIR below optimize::optimize(): (GUARD) every call of the "
